@@ -1,16 +1,35 @@
 (* C11 — references and iterators are faithful proxies for the stored elements.
-   Proved here, for EVERY parameter list: the run tables that drive reference assignment
-   and swap cover every field exactly by "assign/swap it with the value type's own
-   operation" (MANUAL) or "inside one run of consecutive fields that are all trivially
-   assignable / swappable", so no field is skipped and no non-trivial object is ever moved
-   byte-wise; iterator expressions are index arithmetic.
-   That assignment / swap / the permuting algorithms then reproduce exactly the source
-   element's values is decided by the correspondence check and its content oracle
-   (DESIGN.md, C11); in the model all access paths are the same function (vfl/obs_elem). *)
+   Proved here, for EVERY well-formed parameter list and EVERY shape of the run table:
+   * `target = source` (copy form) between element references of equal field sizes in
+     different vectors leaves the target element holding exactly the source's tuple, does
+     not touch the source and changes nothing outside the target element's extent
+     (C11_reference_assignment_copies_the_values; AssignThm.v: every step of
+     ElementTraits::assign - memmove of a run [begin K, end INDEX) or object-wise
+     assignment of a MANUAL field - writes at a target address the source byte at the same
+     offset from the element start, and the run table covers every field);
+   * the run tables that drive assignment and swap cover every field exactly by "MANUAL"
+     or "inside one run of consecutive trivially assignable / swappable fields": no field is
+     skipped and no non-trivial object is ever moved byte-wise;
+   * iterator expressions are index arithmetic.
+   PARTIAL: the move form, assignment within one vector, swap / iter_swap and the permuting
+   algorithms are modelled as written and decided by the correspondence check and its
+   content oracle (DESIGN.md, C11); in the model all access paths are the same function. *)
 From Coq Require Import ZArith List Bool Lia.
-From Cntgs Require Import Base Layout Mem Vector Proxy World CompareThm RunsThm.
+From Cntgs Require Import Base Layout Mem Vector Proxy World Spec Rep CompareThm RunsThm ElemThm CmpContent AssignThm.
 Import ListNotations.
 Local Open Scope Z_scope.
+
+Theorem C11_reference_assignment_copies_the_values : forall L, wf_plist L = true ->
+  forall ts td fcs fcd, tuple_ok L fcs 0 ts -> tuple_ok L fcd 0 td -> cnts_of td = cnts_of ts ->
+  forall ms md sa da, 0 <= sa /\ (SA L | sa) -> 0 <= da /\ (SA L | da) -> elem_at L ms sa ts ->
+  forall sb db,
+  let x' := fst (assign_all false L sb db (ref_fl L ts sa) (ref_fl L td da)
+                            {| m_s := ms; m_d := md; m_same := false |} (seq 0 (length L))) in
+  m_s x' = ms /\
+  elem_at L (m_d x') da ts /\
+  (forall y, ~ (da <= y < da + (elem_end L sa ts - sa)) -> m_d x' y = md y).
+Proof. exact ref_assign_copy. Qed.
+Print Assumptions C11_reference_assignment_copies_the_values.
 
 Theorem C11_assign_table_covers_every_field : forall L j, (j < length L)%nat ->
   covered (runs_asg L) j.
